@@ -3,7 +3,7 @@ CONSTANTS Cfg <- TheCfg
  Wedge = FALSE
  MakeOnPending = "replace"
  FireDropsBs = FALSE
- MaxN = 5
+ MaxN = 4
 CONSTRAINT Bound
 VIEW View
 INVARIANT DoorsWellFormed
